@@ -12,10 +12,12 @@ import (
 	"math/rand"
 	"os"
 	"path/filepath"
+	"runtime"
 	"runtime/debug"
 	"sort"
 	"strconv"
 	"sync"
+	"sync/atomic"
 	"testing"
 	"time"
 )
@@ -310,4 +312,35 @@ func (r *Run) Finish() {
 	if err := os.WriteFile(tmp, b, 0o644); err == nil {
 		_ = os.Rename(tmp, r.out)
 	}
+}
+
+// ForEach runs f for every wanted case index in [0,n) on up to `workers` goroutines (0 = GOMAXPROCS).
+// Cases must be independent; f derives all randomness from r.Rand(c). When replaying, only the
+// replayed case runs.
+func (r *Run) ForEach(n, workers int, f func(c int)) {
+	if workers <= 0 {
+		workers = runtime.GOMAXPROCS(0)
+	}
+	if r.Replaying() {
+		if r.onlyCase < n {
+			f(r.onlyCase)
+		}
+		return
+	}
+	var wg sync.WaitGroup
+	next := int64(-1)
+	for w := 0; w < workers; w++ {
+		wg.Add(1)
+		go func() {
+			defer wg.Done()
+			for {
+				c := int(atomic.AddInt64(&next, 1))
+				if c >= n {
+					return
+				}
+				f(c)
+			}
+		}()
+	}
+	wg.Wait()
 }
